@@ -229,10 +229,19 @@ def run_harnesses(res, cfg, sc, tier, overlay_done=False):
     for o in res.obligations:
         if o.get("engine") == "native-search" and o.get("status") == "failed":
             refuted |= set(o.get("covers") or [])
+    searched_ok = set()
+    for o in res.obligations:
+        if o.get("engine") == "native-search" and o.get("status") in ("bounded", "discharged"):
+            searched_ok |= set(o.get("covers") or [])
     keep = []
     for h in want:
         t = h.get("tier", "quick")
         cov = set(h.get("covers", []))
+        touched = cov & (demoted | getattr(res, "changed_fns", set()))
+        if h.get("bounded") and t != "quick" and tier != "thorough" and touched and touched <= searched_ok:
+            # a bounded harness next to a bounded native search of the same functions adds wall time (10+ min), not strength
+            res.trusted.append("not run below the thorough tier (bounded, and the changed function(s) it covers passed a native search on this run): Kani harness %s - %s" % (h["name"], h.get("contract", "")))
+            continue
         if t in ("fallback", "changed", "thorough") and tier != "thorough" and cov and (cov & (demoted | getattr(res, "changed_fns", set()))) and (cov & (demoted | getattr(res, "changed_fns", set()))) <= refuted:
             res.assumptions.append("Kani harness %s skipped: the changed function(s) it covers are already refuted by a native search on this run" % h["name"])
             continue
